@@ -5,7 +5,7 @@
 2. writes a config file = the tree's config/psyclone.cfg + an ``iteration-spaces`` entry (fixed list
    CFG_ENTRIES below), loads it through Config/GOceanConfig (which calls GOLoop.add_bounds per
    line) and dumps the table again;
-3. parses every bound string with the tiny parser below ({start}, {stop}, integer literals, + - *,
+3. parses every bound string with the tiny parser below ({start}, {stop}, integer literals, + - * /,
    parentheses, white space; anything else raises) into the Gallina type C25.Model.bexpr.
 
 Run stand-alone (``/venv/bin/python props/C25/translate.py`` with PYTHONPATH=<repo>/src:/verif and
@@ -31,6 +31,9 @@ CFG_ENTRIES = [
     "go_offset_any:go_cf:c25_mix: 1 :{stop}:3:{stop}-{start}",
     "go_offset_ne:go_cv:c25_ns_halo:{start}:{stop}+1:{start}-1:{stop}",
     "go_offset_zz:go_new:c25_newkeys:1:{stop}:2*{start}:({stop}+1)-1",
+    # richer bound grammar: quotients, multi-digit literals, "2-1" as a proper substring after substitution
+    "go_offset_sw:go_cf:c25_div:{start}:{stop}/2-1:2 - 1:{stop}-{start}-1",
+    "go_offset_ne:go_ct:c25_lits:{start}-10+9:{stop}-12-1+12:22-1-20:({stop}+2)/2-1+{stop}/2",
 ]
 
 LOOP_TYPES = ("outer", "inner")
@@ -42,7 +45,7 @@ class TranslateError(Exception):
 
 
 # ------------------------------------------------------------------ bound-string parser
-TOKEN = re.compile(r"\s*(\{start\}|\{stop\}|\d+|[-+*()])")
+TOKEN = re.compile(r"\s*(\{start\}|\{stop\}|\d+|[-+*/()])")
 
 
 def tokenize(s):
@@ -60,7 +63,7 @@ def tokenize(s):
 
 
 def parse_bound(s):
-    """bound string -> AST: ('start',) | ('stop',) | ('lit', n) | ('add'|'sub'|'mul', a, b) | ('neg', a).
+    """bound string -> AST: ('start',) | ('stop',) | ('lit', n) | ('add'|'sub'|'mul'|'div', a, b) | ('neg', a).
     Fortran precedence for the operators accepted: unary minus and * bind tighter than + and -,
     left associative."""
     toks = tokenize(s)
@@ -91,9 +94,9 @@ def parse_bound(s):
 
     def term():
         e = atom()
-        while peek() == "*":
-            take()
-            e = ("mul", e, atom())
+        while peek() in ("*", "/"):
+            op = take()
+            e = ("mul" if op == "*" else "div", e, atom())
         return e
 
     def expr():
@@ -127,7 +130,19 @@ def eval_bound(e, start, stop):
     if k == "neg":
         return -eval_bound(e[1], start, stop)
     a, b = eval_bound(e[1], start, stop), eval_bound(e[2], start, stop)
+    if k == "div":
+        return quot(a, b)
     return a + b if k == "add" else a - b if k == "sub" else a * b
+
+
+def quot(a, b):
+    """Fortran integer division (truncation toward zero); Coq's Z.quot, including x/0 = 0"""
+    if b == 0:
+        return 0
+    q = abs(a) // abs(b)
+    return q if (a >= 0) == (b >= 0) else -q
+
+
 
 
 def coq_bexpr(e):
@@ -140,7 +155,7 @@ def coq_bexpr(e):
         return "(BLit %d)" % e[1]
     if k == "neg":
         return "(BNeg %s)" % coq_bexpr(e[1])
-    return "(%s %s %s)" % ({"add": "BAdd", "sub": "BSub", "mul": "BMul"}[k], coq_bexpr(e[1]), coq_bexpr(e[2]))
+    return "(%s %s %s)" % ({"add": "BAdd", "sub": "BSub", "mul": "BMul", "div": "BDiv"}[k], coq_bexpr(e[1]), coq_bexpr(e[2]))
 
 
 def coq_entry(key, b4):
